@@ -442,7 +442,8 @@ class PatchedCounts(BinwisePatchwiseArray):
         if isinstance(item, int):
             item = [item]
 
-        return type(self)(self.binning, self.counts[:, item, item], auto=self.auto)
+        counts = self.counts[:, item][:, :, item]  # select rows, then columns
+        return type(self)(self.binning, counts, auto=self.auto)
 
     def get_array(self) -> NDArray:
         return self.counts
